@@ -32,6 +32,11 @@ PROPS = {
         "theorems": ["Props.C04_no_deadlock", "Props.C04_done_means_finished", "Props.C04_stats_step", "Props.C04_bounded_work"],
         "streams": ["engine", "solve"],
     },
+    "C05": {
+        "module": "Cdecao.Props.C05",
+        "theorems": ["Props.C05_regs", "Props.C05_courses", "Props.C05_no_cancelled_assignment"],
+        "streams": ["e2e-cde"],
+    },
     "C06": {
         "module": "Cdecao.Props.C06",
         "theorems": ["Props.C06", "Props.C06_node", "Props.C06_exec"],
@@ -45,7 +50,7 @@ PROPS = {
     "C08": {
         "module": "Cdecao.Props.C08",
         "theorems": ["Props.C08_score", "Props.C08_score_valid"],
-        "streams": ["node", "solve"],
+        "streams": ["node", "solve", "cli-simple", "e2e-cde"],
     },
     "C09": {
         "module": "Cdecao.Props.C09",
@@ -55,12 +60,42 @@ PROPS = {
     "C10": {
         "module": "Cdecao.Props.C10",
         "theorems": ["Props.C10_node", "Props.C10_tree"],
-        "streams": ["node", "node-rooms", "solve"],
+        "streams": ["node", "node-rooms", "solve", "cli-simple"],
+    },
+    "C11": {
+        "module": "Cdecao.Props.C11",
+        "theorems": ["Props.C11_max", "Props.C11_min", "Props.C11_min_le_max", "Props.C11_fixed", "Props.C11_fixed_written"],
+        "streams": ["cdedb-read", "e2e-cde"],
+    },
+    "C12": {
+        "module": "Cdecao.Props.C12",
+        "theorems": ["Props.C12_loop", "Props.C12_refuse_kind", "Props.C12_refuse_version", "Props.C12_defaults"],
+        "streams": ["cdedb-read"],
+    },
+    "C14": {
+        "module": "Cdecao.Props.C14",
+        "theorems": ["Props.C14_entries", "Props.C14_entries_sorted", "Props.C14_array"],
+        "streams": ["cli-simple"],
+    },
+    "C15": {
+        "module": "Cdecao.Props.C15",
+        "theorems": ["Props.C15_accept_sound", "Props.C15_missing_member"],
+        "streams": ["cli-malformed", "cdedb-read"],
+    },
+    "C16": {
+        "module": "Cdecao.Props.C16",
+        "theorems": ["Props.C16", "Props.C16_faults"],
+        "streams": ["cli-fault", "cli-simple"],
     },
     "C17": {
         "module": "Cdecao.Props.C17",
         "theorems": ["Props.C17_rooms_le_opt"],
         "streams": ["roompairs", "solve-rooms"],
+    },
+    "C18": {
+        "module": "Cdecao.Props.C18",
+        "theorems": ["Props.C18_sound", "Props.C18_nonempty", "Props.C18_dedup"],
+        "streams": ["rooms", "cli-simple"],
     },
     "C19": {
         "module": "Cdecao.Props.C19",
@@ -90,6 +125,8 @@ LEVELS = {
             "note": _ENG + " Partial only inside the F1 class (instructors with own choices of non-fixed courses), where `Bounded` is not proved."},
     "C04": {"text": "Theorems Props.C04_no_deadlock, C04_done_means_finished, C04_stats_step, C04_bounded_work over the engine model, all T >= 1 and schedules incl. spurious wake-ups; every real run under the shim is replayed through the model with all six counters compared, and the shim's deadlock detector and step budget watch the real code.",
             "note": _ENG},
+    "C05": {"text": "Writer theorems Props.C05_regs / C05_courses / C05_no_cancelled_assignment over the model of io::cdedb::write; end to end through the REAL binary: generated exports x option combinations -> import file -> (a) independent reference model of the partial import + the clauses of C05 in database ids (Python), (b) the Lean models: reader (CD.read), decoded assignment, writer equality, HardOK and RoomOK evaluated by the driver on the problem the model reads.",
+            "note": "io/cdedb.rs reader and writer are modelled by CD.read / CD.writeRegs / CD.writeCourses from the serde_json value on (bytes -> value is serde_json's). The composition theorem `Consistent` (reader + HardOK + writer) is not assembled yet: partial."},
     "C06": {"text": "Theorem Props.C06: under a room list the incumbent's effective sizes, sorted descending, fit the descending room list rank by rank, for every eff function (no float reasoning), every T and schedule. RoomOK is also evaluated in Lean (native Float32) on every assignment the real code returns with rooms.",
             "note": _NODE + " The effective size is the documented formula as evaluated in f32."},
     "C07": {"text": "Theorems Props.C07_partial (perfect matching, score = weight, optimal) and C07_total (returns whenever a constrained perfect matching exists) about H2.run, all sizes/weights/masks; exact correspondence (matching array and score) on random matrices, Perfect/weight evaluated in Lean on the real output, brute-force optimum for <= 9 rows.",
@@ -100,6 +137,18 @@ LEVELS = {
             "note": _ENG},
     "C10": {"text": "Theorems Props.C10_node / C10_tree: no panic site of run_bab_node (11 sites + the Hungarian routine's own) is reachable at any node of the search tree of a well-formed instance with num_min <= num_max. The CLI half (exit status 0/1, no output file on 1) is checked on the real binary once the cli streams are built.",
             "note": _NODE + " f32 behaviour is a parameter (after fix F9 totality needs no float property)."},
+    "C11": {"text": "Arithmetic and writer theorems about adapt_course_for_invisible_participants (places reserved: max counting pre-assigned, min counting both groups, course fixed, fixed course written active) + exact correspondence of the reader (incl. invisible counts, hidden names, external quality data) on generated exports with arbitrary existing assignments, all four option combinations, and the end-to-end consistency oracle with both-groups counts through the real binary.",
+            "note": "Model CD.read/CD.adapt; the room offset change is applied natively (f32) by the driver. Non-reassignment of ignored registrations follows from the reader correspondence + writer theorem (only participants are named); stated in Lean only at the component level (partial)."},
+    "C12": {"text": "Theorems Props.C12_loop (registration loop invariant: participants = kept registrations in order, index = position, instructor indices point at the instructing registration), refusals (kind, version), defaults from the re-extracted constants; exact correspondence of CD.read with io::cdedb::read (courses, participants, choices/penalties, sizes, f32 factor/offset bits, ambience data, Ok/Err) on generated exports incl. single-field corruptions; an independent declarative re-statement (Python) as oracle.",
+            "note": "Model starts at the serde_json value; timestamp syntax by a simplified recogniser exact on the generator's domain; canonical decimal keys only."},
+    "C14": {"text": "Theorems Props.C14_entries / C14_entries_sorted (the listing of a course = exactly the participants assigned to it, in order, flagged iff instructor) and C14_array (one entry per participant, null or valid index, all T and schedules); the real binary's --print output is compared byte for byte with the Lean rendering LM.render, and the output file's array/keys are checked, incl. hidden names, non-ASCII names and a stale longer output file.",
+            "note": "io.rs format_assignment is modelled by LM.render; the possible-rooms strings are taken from the real output and checked by C18."},
+    "C15": {"text": "Theorem Props.C15_accept_sound: whatever the simple-format reader + validation accepts is an instance with all indices in range, num_min <= num_max and at least one participant (the premises of the solver's totality theorem C10); the real binary is run on single-field corruptions of valid simple and CdE documents, bad option values and raw garbage: exit status in {64,65,66,2}, no 'panicked', no output file; accept/refuse is compared with the Lean models SM.accepts and CD.read.",
+            "note": "From the JSON value on; bytes -> value (serde_json), option parsing (clap) are only enumerated. serde's positional (array) form of structs is not modelled and not generated."},
+    "C16": {"text": "Theorems Props.C16 / C16_faults about the output stage's decision logic; the fault matrix {ok, ENOENT, EISDIR, ENAMETOOLONG, ENOTDIR, /dev/full, RLIMIT_FSIZE partial write, stale longer file} x {simple, cde} x {--print} is run exhaustively on the real binary and compared with the model (exit status, listing still printed, file complete iff exit 0).",
+            "note": "Runtime behaviour (which errno, short writes) cannot be exhibited by the model: proof of the decision logic + fault enumeration (partial by nature). Running as root, a read-only directory is not a fault."},
+    "C18": {"text": "Theorems Props.C18_sound / C18_nonempty / C18_dedup for the double loop RS.possible under ANY sorting permutation of equally sized courses; exact correspondence (strings) of get_course_room_size_list / get_course_room_kind_names with the Lean model given the rank order the real unstable sort produced, on room-feasible assignments with shuffled room lists, duplicate capacities, fewer/more rooms than courses, quantity-0 kinds; the executable specification (usable room = large enough + remaining courses still fit) is evaluated on every listing, also on the real binary's --print output.",
+            "note": "Plumbing (re-indexing by course, kind names) is in the executable model RM.* and tied by correspondence; its Lean proof is in progress."},
     "C19": {"text": "Theorems Props.C19_no_hang / C19_bounded_work: with panicking node solvers anywhere in the tree, all T >= 1 and schedules, some non-wake step is enabled until every worker is done or dead. Real runs with one failing node at random positions under seeded schedules: no deadlock, panic propagated, trace replays through the model.",
             "note": _ENG + " The join loop of bab::solve is not part of the model (the replay driver compares the join order)."},
     "C20": {"text": "Theorems Props.C20_*: binom = choose; for 1 <= k <= n exactly choose n k selections, the i-th strictly increasing, below n, of rank i; stops after the last; empty for k = 0 or k > n; size hint exact. All (n,k) with n <= 11 (thorough 18) compared exhaustively with the real iterator.",
